@@ -741,7 +741,8 @@ class FTCorrelationFunction(DFunction, UnitsManaged):
         Dictionary of the correlation function parameters
 
     """
-    energy_params = ("reorg", "omega", "freq")
+    # the same parameters carry energy units as in the time domain
+    energy_params = CorrelationFunction.energy_params
     
     def __init__(self, axis, params, values=None):
         super().__init__()
